@@ -34,7 +34,7 @@ _CCT0_DECODE_MAP = {
     b'\xa1': '\u00A1',  # ¡
     b'\xa2': '\u00A2',  # ¢
     b'\xa3': '\u00A3',  # £
-    b'\xa4': '\u00A4',  # $
+    b'\xa4': '\u0024',  # $
     b'\xa5': '\u00A5',  # ¥
     # b'\xa6'
     b'\xa7': '\u00A7',  # §
